@@ -4,15 +4,16 @@ package batchresource
 
 // C14 correspondence harness. One case = one pod.
 //
-// input  : mode qos cfs ratio n  then n records (rcf rc lcf lc rmf rm lmf lm)
+// input  : mode qos cfs prev ratio n  then n records (rcf rc lcf lc rmf rm lmf lm)
 //   mode  0 runtime-proxy request, 1 NRI request, 2 reconciler request (from the pod object)
 //   qos   0 unmarked, 1 label BE, 2 label LS, 3 label LSR, 4 annotation-only BE, 5 label BE +
 //         annotation LS, 6 label "be" (unknown name), 7 label LS + annotation BE
 //   cfs   0 NodeSLO rule never parsed, 1 NodeSLO without threshold strategy (defaults),
 //         2 suppress enabled + cfsQuota policy (=> CFS quota disabled for batch),
 //         3 suppress enabled + cpuset policy, 4 suppress disabled + cfsQuota policy
-//   ratio -1 node-meta rule never parsed, 0 node without the annotation, -2 annotation "0.00"
+//   ratio -1 node-meta rule not parsed, 0 node without the annotation, -2 annotation "0.00"
 //         (rejected), -3 annotation "abc" (rejected), k>0 annotation = k/100 printed with two decimals
+//   prev  same codes: an earlier node-meta update seen by the same rule (ratio is the current one)
 //   per container: batch-cpu request (flag,value), batch-cpu limit, batch-memory request,
 //         batch-memory limit; flag 0 = the resource name is not declared
 // observable: 6 integers for the pod then 6 per container in spec order:
@@ -51,7 +52,7 @@ import (
 )
 
 const (
-	vtC14Hdr = 5
+	vtC14Hdr = 6
 	vtC14Rec = 8
 )
 
@@ -149,7 +150,7 @@ func vtC14Webhook(pod *corev1.Pod) (*corev1.Pod, bool) {
 	return stored, true
 }
 
-func vtC14Rule(p *plugin, cfs, ratio int64) {
+func vtC14Rule(p *plugin, cfs int64, ratios ...int64) {
 	thr := func(enable bool, policy slov1alpha1.CPUSuppressPolicy) *slov1alpha1.NodeSLOSpec {
 		return &slov1alpha1.NodeSLOSpec{ResourceUsedThresholdWithBE: &slov1alpha1.ResourceThresholdStrategy{
 			Enable: ptr.To(enable), CPUSuppressPolicy: policy}}
@@ -164,19 +165,21 @@ func vtC14Rule(p *plugin, cfs, ratio int64) {
 	case 4:
 		_, _ = p.parseRuleForNodeSLO(thr(false, slov1alpha1.CPUCfsQuotaPolicy))
 	}
-	node := &corev1.Node{ObjectMeta: metav1.ObjectMeta{Name: "node"}}
-	switch {
-	case ratio == -1:
-		return
-	case ratio == 0:
-	case ratio == -2:
-		node.Annotations = map[string]string{apiext.AnnotationCPUNormalizationRatio: "0.00"}
-	case ratio == -3:
-		node.Annotations = map[string]string{apiext.AnnotationCPUNormalizationRatio: "abc"}
-	default:
-		node.Annotations = map[string]string{apiext.AnnotationCPUNormalizationRatio: fmt.Sprintf("%d.%02d", ratio/100, ratio%100)}
+	for _, code := range ratios {
+		node := &corev1.Node{ObjectMeta: metav1.ObjectMeta{Name: "node"}}
+		switch {
+		case code == -1:
+			continue
+		case code == 0:
+		case code == -2:
+			node.Annotations = map[string]string{apiext.AnnotationCPUNormalizationRatio: "0.00"}
+		case code == -3:
+			node.Annotations = map[string]string{apiext.AnnotationCPUNormalizationRatio: "abc"}
+		default:
+			node.Annotations = map[string]string{apiext.AnnotationCPUNormalizationRatio: fmt.Sprintf("%d.%02d", code/100, code%100)}
+		}
+		_, _ = p.parseRuleForNodeMeta(node)
 	}
-	_, _ = p.parseRuleForNodeMeta(node)
 }
 
 func vtC14Res(r *protocol.Resources) []int64 {
@@ -195,13 +198,13 @@ func vtC14Res(r *protocol.Resources) []int64 {
 }
 
 func vtC14Exec(in []int64) []int64 {
-	mode, qos, cfs, ratio, n := in[0], in[1], in[2], in[3], int(in[4])
+	mode, qos, cfs, prev, ratio, n := in[0], in[1], in[2], in[3], in[4], int(in[5])
 	pod, ok := vtC14Webhook(vtC14Pod(qos, n, in[vtC14Hdr:]))
 	if !ok {
 		return []int64{-5}
 	}
 	p := newPlugin()
-	vtC14Rule(p, cfs, ratio)
+	vtC14Rule(p, cfs, prev, ratio)
 
 	obs := make([]int64, 0, 6*(n+1))
 	podMeta := &statesinformer.PodMeta{Pod: pod, CgroupDir: "kubepods/besteffort/poduid-p"}
@@ -260,7 +263,7 @@ func vtC14Amount(r *rand.Rand, style string, cap int64) int64 {
 		case 0:
 			return cap - int64(r.Intn(3))
 		case 1:
-			return int64(1)<<uint(20+r.Intn(16)) + int64(r.Intn(3)) - 1
+			return int64(1)<<uint(20+r.Intn(22)) + int64(r.Intn(3)) - 1
 		}
 		return r.Int63n(cap) + 1
 	case "negative":
@@ -293,15 +296,36 @@ func vtC14Gen(r *rand.Rand, i int) (string, []int64) {
 		cfs = 0
 	}
 	var ratio int64
-	switch r.Intn(8) {
+	switch r.Intn(10) {
 	case 0:
 		ratio = -1
 	case 1:
 		ratio = 0
 	case 2:
-		ratio = []int64{-2, -3, 25, 50, 75, 100}[r.Intn(6)]
-	default:
+		ratio = []int64{-2, -3, 25, 50, 75, 99, 100, 101}[r.Intn(8)]
+	case 3, 4:
 		ratio = 100 + 25*int64(1+r.Intn(16)) // binary-exact ratios 1.25 .. 5.00
+	case 5:
+		ratio = 101 + r.Int63n(100000) // any two-decimal ratio up to 1000
+	default:
+		ratio = 101 + r.Int63n(400) // the realistic range 1.01 .. 5.00
+	}
+	// an earlier update of the same rule: usually none; otherwise a neighbouring two-decimal
+	// value (the 0.01 hysteresis of Rule.UpdateCPUNormalizationRatio), any value, or no/invalid annotation
+	prev := int64(-1)
+	if ratio > 0 {
+		switch r.Intn(12) {
+		case 0:
+			prev = ratio - 1
+		case 1:
+			prev = ratio + 1
+		case 2:
+			prev = 1 + r.Int63n(600)
+		case 3:
+			prev = []int64{0, -2, -3, ratio}[r.Intn(4)]
+		}
+	} else if r.Intn(4) == 0 {
+		prev = 100 + r.Int63n(300)
 	}
 	n := 1 + r.Intn(6)
 	if r.Intn(20) == 0 {
@@ -310,8 +334,8 @@ func vtC14Gen(r *rand.Rand, i int) (string, []int64) {
 	if r.Intn(20) == 0 {
 		n = 7 + r.Intn(6)
 	}
-	const cpuCap, memCap = int64(1) << 35, int64(1) << 58
-	in := []int64{mode, qos, cfs, ratio, int64(n)}
+	const cpuCap, memCap = int64(1) << 42, int64(1) << 58 // pod quota below 2^53, sums below 2^63
+	in := []int64{mode, qos, cfs, prev, ratio, int64(n)}
 	for c := 0; c < n; c++ {
 		// which of the four amounts are declared
 		var pres [4]bool
